@@ -219,6 +219,26 @@ func TestC20(t *testing.T) {
 			if _, found := c.App.FileTreeKeeper.GetFiles(f.Ctx, resp.Path, ftkeeper.MakeOwnerAddress(resp.Path, acct)); !found {
 				failf(rt, rec, "C20/post-stored", segs[:i+1], "posted entry not found at returned path")
 			}
+			// posting the same path again (a verbatim retry, or new contents) returns the same address again
+			if again := rapid.IntRange(0, 3).Draw(rt, fmt.Sprintf("repost%d", i)); again > 0 {
+				m2 := *msg
+				if again == 2 {
+					m2.Contents = "other contents"
+				}
+				if again == 3 { // the same parent spelled with / without its trailing slash gives the same message
+					m2.HashParent = fttypes.MerklePath(render(segs[:i], true))
+				}
+				r2 := f.Exec(&m2)
+				if !r2.OK() {
+					failf(rt, rec, "C20/post-rejected", segs[:i+1], "the owner's second post of %q failed: %v", segs[i], r2)
+				}
+				var resp2 fttypes.MsgPostFileResponse
+				must(r2.Decode(&resp2))
+				if resp2.Path != want {
+					failf(rt, rec, "C20/post-path", segs[:i+1], "a second PostFile of the same path returned %q, the address of the plain path is %s", resp2.Path, want)
+				}
+				rec.Count("re-posts")
+			}
 		}
 		rec.Count("posts")
 		rec.Case(len(segs) >= 3, ev.Hash(append([]string{"post"}, segs...)...), func() interface{} {
